@@ -465,6 +465,77 @@ def r09c(ck, prog):
     ck.floor("R09c", len(words), 5, "documented words")
 
 
+def _fev(n, env):
+    """tiny evaluator for float guards: literals, bound locals, unary -, !, comparisons, && and ||; None = unknown"""
+    n = n.strip(casts=True)
+    if n.k in ("FloatingLiteral", "IntegerLiteral"):
+        return float(n.d["v"])
+    if n.cv is not None and n.k != "DeclRefExpr":
+        return float(n.cv)
+    if n.k == "DeclRefExpr":
+        return env.get(n.d.get("did"))
+    if n.k == "UnaryOperator" and n.d["op"] in ("-", "!", "+"):
+        v = _fev(n.kids[0], env)
+        if v is None:
+            return None
+        return -v if n.d["op"] == "-" else (v if n.d["op"] == "+" else float(not v))
+    if n.k == "BinaryOperator":
+        op = n.d["op"]
+        a, b = _fev(n.kids[0], env), _fev(n.kids[1], env)
+        if op == "&&":
+            if (a is not None and not a) or (b is not None and not b):
+                return 0.0
+            return None if a is None or b is None else 1.0
+        if op == "||":
+            if (a is not None and a) or (b is not None and b):
+                return 1.0
+            return None if a is None or b is None else 0.0
+        if a is None or b is None:
+            return None
+        return {"<": float(a < b), ">": float(a > b), "<=": float(a <= b), ">=": float(a >= b), "==": float(a == b), "!=": float(a != b),
+                "+": a + b, "-": a - b, "*": a * b}.get(op)
+    return None
+
+
+def _drops_nonnegative(H):
+    """does the option-parsing helper H return a negative constant for a parsed value of 0 or of 1?  -> description or None.
+    The parsed value is the local defined from atof/strtod of the parameter."""
+    from ..util import local_defs, prior_exit_guards
+    parsed = None
+    for d in H.body.find("DeclStmt"):
+        for kid in d.kids:
+            if kid.role == "declinit" and any(x.k == "CallExpr" and x.callee in ("atof", "strtod", "strtof") for x in kid.walk()):
+                parsed = kid.decl["did"]
+    for a in H.body.find("BinaryOperator"):
+        if a.d["op"] == "=" and a.kids[0].strip().k == "DeclRefExpr" and any(x.k == "CallExpr" and x.callee in ("atof", "strtod", "strtof") for x in a.kids[1].walk()):
+            parsed = a.kids[0].strip().d["did"]
+    rets = list(H.body.find("ReturnStmt"))
+    if parsed is None or not rets:
+        raise AnalysisBroken("R09d: the parsing helper %s is not understood (no local holds the parsed number)" % H.name)
+    for probe in (0.0, 1.0):
+        taken = None
+        for r in rets:
+            gs = list(guards(r)) + [(x[0], x[1]) for x in prior_exit_guards(r)]
+            feas = True
+            for c, pol in gs:
+                v = _fev(c, {parsed: probe})
+                if v is None:
+                    raise AnalysisBroken("R09d: a test in %s cannot be evaluated for a parsed value of %g (%s)" % (H.name, probe, c.text()[:40]))
+                if bool(v) != pol:
+                    feas = False
+            if feas:
+                taken = r
+                break
+        if taken is None or not taken.kids:
+            raise AnalysisBroken("R09d: no return of %s is taken for a parsed value of %g" % (H.name, probe))
+        rv = _fev(taken.kids[0], {parsed: probe})
+        if rv is None:
+            raise AnalysisBroken("R09d: what %s returns for a parsed value of %g is not a constant or the parsed value" % (H.name, probe))
+        if rv != probe:
+            return "%g for an argument that parses to %g" % (rv, probe)
+    return None
+
+
 def r09d(ck, prog):
     # (i) init_param: negative constants
     ip = prog.fn("init_param")
@@ -518,6 +589,20 @@ def r09d(ck, prog):
                 if not any(r.d["name"] == "optarg" for r in rhs.refs()):
                     ck.violation("R09d", "R09d/%s/%s-value" % (F.name, p), where,
                                  "--%s does not store the option's argument (%s)" % (p, rhs.text()), prog.config)
+                    continue
+                # the stored value is the number that was typed: the parse call itself, or a helper that returns the parsed
+                # value for every non-negative number (zero is a value, README: negative = not given)
+                r0 = rhs.strip(casts=True)
+                if r0.k == "CallExpr" and r0.callee in ("atof", "strtod", "strtof", "strtold"):
+                    continue
+                H = prog.functions.get(r0.callee) if r0.k == "CallExpr" and r0.callee else None
+                if H is None or H.body is None:
+                    raise AnalysisBroken("R09d: how --%s turns its argument into a number is not understood (%s)" % (p, rhs.text()[:40]))
+                why = _drops_nonnegative(H)
+                if why:
+                    ck.violation("R09d", "R09d/%s/%s-parse" % (F.name, p), where,
+                                 "--%s stores %s, and %s returns %s: a penalty given as such a value is silently "
+                                 "replaced by the default of the alignment type" % (p, rhs.text(), H.name, why), prog.config)
     # (iii) position-by-name along the chain of calls
     names = ("type", "gpo", "gpe", "tgpe", "n_threads", "nthreads", "biotype")
     for callee in ("kalign_run", "aln_param_init", "kalign"):
